@@ -217,8 +217,8 @@ func Monitors(h History, tr *Trace) []Failure {
 			}
 			add("C11", "C11/notbonded-pool-"+dir+"-sum-of-unbonding-tokens", height, "pool %s, tokens %s", s.NotBonded, notb)
 		}
-		if s.ModuleInv != "" {
-			add("C11", "C11/staking-module-account-invariant", height, "%s", s.ModuleInv)
+		for _, inv := range s.Invariants {
+			add("K3", "K3/sdk-invariant-broken:"+strings.SplitN(inv, ":", 2)[0], height, "%s", inv)
 		}
 		// C10 uniqueness
 		ops, cks := map[int]string{}, map[int]string{}
